@@ -2,7 +2,7 @@
 # tools_regress.sh: every regression the machinery has, one summary line each (developer tool; several minutes).
 cd /verif
 echo "unchanged tree: $(bin/crdcheck -p all -noevidence 2>&1 | grep -c '0 violations')/17 properties without violations"
-echo "variants: $(./tools_sweep.sh 2>&1 | grep -c 'rc=1') detected pairs, not detected: $(./tools_sweep.sh 2>&1 | grep -vc 'rc=1')"
+./tools_sweep.sh > /tmp/sweep.$$ 2>&1; echo "variants: $(grep -c 'rc=1' /tmp/sweep.$$) detected pairs, not detected: $(grep -vc 'rc=1' /tmp/sweep.$$)"; grep -v 'rc=1' /tmp/sweep.$$; rm -f /tmp/sweep.$$
 ./tools_benign.sh 2>&1 | tail -1
 ./tools_seeds_all.sh | grep -E "MISSED|APPLY|not detected" | grep -v ": APPLY," 
 ./tools_benign_refactors.sh | tail -3
